@@ -171,18 +171,32 @@ def leanchecker(mods: list[str]) -> tuple[bool, str]:
     return p.returncode == 0, (p.stdout + p.stderr)[-2000:]
 
 
+class DriverError(RuntimeError):
+    pass
+
+
+def try_driver(lines: list[str], res, what: str):
+    """run the model driver; if it no longer builds/runs against the regenerated fragments the correspondence is broken
+    (recorded as a disagreement, never a harness error) and the caller continues with the Python oracles only"""
+    try:
+        return run_driver(lines)
+    except DriverError as e:
+        res.disagreements.append({'name': 'Lean model driver unavailable: ' + what, 'detail': str(e)[-600:]})
+        return None
+
+
 def run_driver(lines: list[str], timeout=1800) -> list[str]:
     """Pipe command lines to the Lean model driver; one output line per input line."""
     inp = '\n'.join(lines) + '\n'
     p = subprocess.run(['lake', 'env', 'lean', '--run', 'Driver.lean'], cwd=LEAN, input=inp, capture_output=True, text=True,
                        timeout=timeout)
     if p.returncode != 0:
-        raise RuntimeError('Lean driver failed: ' + (p.stderr or p.stdout)[-2000:])
+        raise DriverError('Lean driver failed: ' + (p.stderr or p.stdout)[-2000:])
     out = p.stdout.split('\n')
     if out and out[-1] == '':
         out.pop()
     if len(out) != len(lines):
-        raise RuntimeError(f'Lean driver returned {len(out)} lines for {len(lines)} commands: ' + p.stderr[-1000:])
+        raise DriverError(f'Lean driver returned {len(out)} lines for {len(lines)} commands: ' + p.stderr[-1000:])
     return out
 
 
@@ -241,6 +255,18 @@ class Result:
             self.nontrivial.add(hashlib.sha1(repr(canon).encode()).hexdigest())
         if sample is not None and len(self.samples) < 3:
             self.samples.append(sample)
+
+
+def corpus_cases(prop: str) -> list[dict]:
+    """minimised past failures / regression replays of fixed findings: run first on every run"""
+    d = CORPUS / prop
+    if not d.exists():
+        return []
+    out = []
+    for f in sorted(d.glob('*.json')):
+        c = json.loads(f.read_text())
+        out.append(c.get('input', c))
+    return out
 
 
 def known_findings() -> list[dict]:
